@@ -109,7 +109,8 @@ pub fn extensions(t: &Term) -> Vec<Term> {
         out.push(Term::Only(Box::new(t.clone()), ids.clone()));
         out.push(Term::Except(Box::new(t.clone()), ids));
     }
-    for p in ["p:", "q-", "P:"] {
+    // (the prefix `a` makes the prefixed names aa ab ac ad: one of them repeats the prefix text)
+    for p in ["p:", "q-", "P:", "a"] {
         out.push(Term::Prefix(Box::new(t.clone()), p.to_string()));
     }
     // renamings of one or two names; targets from the available names and two fresh ones; result names distinct
@@ -265,6 +266,12 @@ fn second_declaration_cases() -> Vec<(Vec<&'static str>, &'static str)> {
         (vec!["(import (scheme base) (prefix (t twins) p-) (prefix (t twins) q-))"], "@(list p-x q-x p-y q-y (p-p) (q-q))=(1/2 1/2 0.5 0.5 1 2)"),
         (vec!["(import (scheme base) (prefix (t twins) p-))", "(import (prefix (t twins) q-))"], "@(list p-x q-x (p-p) (q-q))=(1/2 1/2 1 2)"),
         (vec!["(import (scheme base) (prefix (t twins) q-))", "(import (prefix (t twins) p-) (prefix (prefix (t twins) a-) b-))"], "@(list p-x q-x b-a-y)=(1/2 1/2 0.5)"),
+        // only over a prefix whose text is also the beginning of an exported name
+        (vec!["(import (scheme base) (only (prefix (t twins) x) xx xy))"], "@(list xx xy)=(1/2 0.5)"),
+        (vec!["(import (scheme base) (only (prefix (prefix (t twins) p) p) ppp ppq ppx))"], "@(list (ppp) (ppq) ppx)=(1 2 1/2)"),
+        (vec!["(import (scheme base) (except (prefix (t twins) q) qx qy qp))"], "@(list (qq))=(2)"),
+        // a library whose second import declaration comes after a part of its body
+        (vec!["(import (scheme base) (t late))"], "@late-v=(1 1/2 0.5)"),
         // a builtin imported under another name is the same procedure
         (vec!["(import (scheme base) (prefix (only (scheme base) car cdr) p-) (rename (only (scheme base) cons) (cons kons)))"], "@(list (eqv? p-car car) (eqv? p-cdr cdr) (eqv? kons cons) (eqv? p-car p-cdr) (p-car (kons 1 2)))=(#t #t #t #f 1)"),
         (vec!["(import (scheme base) (t twins))", "(import (rename (t twins) (x y) (y x) (p q) (q p)))"], "(0.5 1/2 2 1)"),
@@ -299,6 +306,10 @@ fn judge_second_declaration(decls: &[&str], expected: &str) -> Report {
         match LibraryFactory::from_char_stream(&LibraryName(vec![LibraryNameElement::Identifier("t".into()), LibraryNameElement::Identifier("twins".into())]), lib.chars()) {
             Ok(f) => s.it.register_library_factory(f),
             Err(_) => return Outcome::NoValue,
+        }
+        let late = "(define-library (t late) (export late-v) (import (scheme base)) (begin (define a 1)) (import (prefix (t twins) w-)) (begin (define late-v (list a w-x w-y))))";
+        if let Ok(f) = LibraryFactory::from_char_stream(&LibraryName(vec![LibraryNameElement::Identifier("t".into()), LibraryNameElement::Identifier("late".into())]), late.chars()) {
+            s.it.register_library_factory(f);
         }
         for d in &decls {
             if let o @ (Outcome::Error(_) | Outcome::Panic { .. }) = s.eval(d) {
